@@ -110,8 +110,9 @@ CHECKS = {
               "over all registration orders of five versions; the exported order/supports table is compared entry by entry with real "
               "PluginRef objects (all comparison operators, hash, sorted, sets) and every registration order is replayed on the real "
               "schema plugin group through entry points and register_in_group; version-less classes must refuse subclassing; "
-              "entry-point names round trip over a generated grammar."),
-        technique="TLA+ order/registry specification checked exhaustively by TLC + table-driven conformance of PluginRef/PluginGroup + replay of all registration orders",
+              "entry-point names round trip over a generated grammar. The order/supports laws are also discharged for all naturals "
+              "by Apalache (PluginOrderUnbounded.tla)."),
+        technique="TLA+ order/registry specification checked exhaustively by TLC (laws also unbounded by Apalache) + table-driven conformance of PluginRef/PluginGroup + replay of all registration orders",
         design="4/C16"),
     "C14": dict(
         text=("PartialMerge.tla defines the documented merge; TLC checks identity, associativity (with conflict absorbing), list "
